@@ -20,16 +20,17 @@ rules for the three shortcut flags.
 from .. import cfgutil as cu
 from .. import paths
 
-TRACK_VAR = 'string'
+STRING_T = 'YR_STRING *'
+COND_FACTS = ('isFOUND', 'notFOUND', 'isFOUND_AT', 'notFOUND_AT')
 
 
-def _flag_clear(fn, n, flag_vals):
-    """n is `X->flags &= ~K` on the tracked variable -> flag name"""
+def _flag_clear(fn, n, flag_vals, track):
+    """n is `X->flags &= ~K` on the tracked variable -> flag names"""
     if n['k'] != 'bin' or n['op'] != '&=':
         return None
     lhs = fn.kid(n, 0)
     root, path = cu.member_path(fn, lhs)
-    if root is None or root['k'] != 'ref' or root['name'] != TRACK_VAR or path != ['flags']:
+    if root is None or root['k'] != 'ref' or root['name'] != track or path != ['flags']:
         return None
     rhs = cu.strip_casts(fn, fn.kid(n, 1))
     v = cu.const_of(rhs)
@@ -42,69 +43,126 @@ def _flag_clear(fn, n, flag_vals):
     return out
 
 
-def _assigns_tracked(fn, n):
+def _assigns_tracked(fn, n, track):
     """does evaluating n (re)bind the tracked string variable"""
     if n['k'] == 'bin' and n['op'] == '=':
         l = fn.kid(n, 0)
-        if l is not None and l['k'] == 'ref' and l['name'] == TRACK_VAR:
+        if l is not None and l['k'] == 'ref' and l['name'] == track:
             return True
     if n['k'] == 'un' and n['op'] == '&':
         l = fn.kid(n, 0)
-        if l is not None and l['k'] == 'ref' and l['name'] == TRACK_VAR:
+        if l is not None and l['k'] == 'ref' and l['name'] == track:
             return True
     return False
 
 
-def check_function(ctx, fname, mode):
-    prog = ctx.prog
-    f = ctx.fn(fname, 'libyara/parser.c')
-    flag_vals = {'SM': prog.macro_value('STRING_FLAGS_SINGLE_MATCH'),
-                 'FO': prog.macro_value('STRING_FLAGS_FIXED_OFFSET')}
-    ctx.require(None not in flag_vals.values(), 'shortcut flag macros not evaluable')
-    op_found = prog.macro_value('OP_FOUND')
-    op_found_at = prog.macro_value('OP_FOUND_AT')
-    op_push = prog.macro_value('OP_PUSH')
-    undef = prog.macro_value('YR_UNDEFINED')
-    has_instr = any(p['name'] == 'instruction' for p in f.params)
-    reports = {}
-    uses = [0]
+def _string_vars(f):
+    out = [p['name'] for p in f.params if p.get('type') == STRING_T]
+    for n in f.all_nodes():
+        if n['k'] == 'decl' and n.get('t') == STRING_T and n.get('name') not in out:
+            out.append(n['name'])
+    return out
 
-    def in_loop_over_strings(n):
+
+def _conflict(facts):
+    return ('isFOUND' in facts and 'notFOUND' in facts) or \
+        ('isFOUND_AT' in facts and 'notFOUND_AT' in facts) or \
+        ('isFOUND' in facts and 'isFOUND_AT' in facts)
+
+
+class _Analysis(object):
+    """the flag discipline of one function with respect to one YR_STRING*
+    variable.  Roles are derived, not named: the instruction is whichever
+    parameter is compared with OP_FOUND / OP_FOUND_AT, the offset whichever
+    parameter is compared with <string>->fixed_offset."""
+
+    def __init__(self, ctx, f, track, mode, consts, summaries):
+        self.ctx, self.f, self.track, self.mode = ctx, f, track, mode
+        self.flag_vals, self.op_found, self.op_found_at, self.op_push = consts
+        self.summaries = summaries
+        self.reports = {}
+        self.uses = 0
+        self.exits = set()
+        self.instr_params = set()
+        self.off_params = set()
+        self.is_param = track in [p['name'] for p in f.params]
+
+    def in_loop_over_strings(self, n):
+        f = self.f
         for a in f.ancestors(n):
             if a['k'] == 'for' and 'yr_rule_strings_foreach' in f.macros(a):
                 return True
         return False
 
-    def check(facts, where_node, what):
+    def check(self, facts, where_node, what):
         if 'pushed' not in facts:
             return
         sm_ok = 'clrSM' in facts or 'isFOUND' in facts
         fo_ok = 'clrFO' in facts or ('isFOUND_AT' in facts and 'offEq' in facts)
         if not sm_ok:
-            reports.setdefault('SINGLE_MATCH', (where_node, what, sorted(facts)))
+            self.reports.setdefault('SINGLE_MATCH', (self.f, where_node, what, sorted(facts)))
         if not fo_ok:
-            reports.setdefault('FIXED_OFFSET', (where_node, what, sorted(facts)))
+            self.reports.setdefault('FIXED_OFFSET', (self.f, where_node, what, sorted(facts)))
 
-    def step(n, facts):
+    def step(self, n, facts):
+        f, track = self.f, self.track
         k = n['k']
-        if _assigns_tracked(f, n):
+        if _assigns_tracked(f, n, track):
             # the variable is about to denote another string: the obligations
             # of the previous one must be settled here
-            check(facts, n, 'next string')
+            self.check(facts, n, 'next string')
             facts = facts - {'pushed', 'clrSM', 'clrFO', 'offEq'}
-            if mode == 'anon+named' and in_loop_over_strings(n):
+            if self.mode == 'anon+named' and self.in_loop_over_strings(n):
                 # `$` inside a loop stands for every string of the rule
                 facts = facts | {'pushed'}
-                uses[0] += 1
+                self.uses += 1
             return facts
         if k == 'call' and n.get('callee') == 'yr_parser_emit_with_arg_reloc':
             args = f.call_args(n)
-            if len(args) >= 3 and cu.const_of(args[1]) == op_push:
+            if len(args) >= 3 and cu.const_of(args[1]) == self.op_push:
                 a = cu.strip_casts(f, args[2])
-                if a is not None and a['k'] == 'ref' and a['name'] == TRACK_VAR:
-                    uses[0] += 1
+                if a is not None and a['k'] == 'ref' and a['name'] == track:
+                    self.uses += 1
                     return facts | {'pushed'}
-        cl = _flag_clear(f, n, flag_vals)
+        if k == 'call' and n.get('callee') in self.summaries:
+            # a helper of this translation unit that receives the tracked string
+            args = f.call_args(n)
+            for (hname, pidx), summ in self.summaries[n['callee']].items():
+                if pidx >= len(args):
+                    continue
+                a = cu.strip_casts(f, args[pidx])
+                if a is None or a['k'] != 'ref' or a['name'] != track:
+                    continue
+                out = paths.Fork()
+                for o in summ['outcomes']:
+                    keep = set(o)
+                    ii, io = summ['instr'], summ['off']
+                    # the helper's knowledge about its instruction / offset
+                    # parameters is knowledge about ours only when our own
+                    # instruction / offset variables are what is passed
+                    ia = cu.strip_casts(f, args[ii]) if ii is not None and ii < len(args) else None
+                    if ia is not None and cu.const_of(ia) is not None:
+                        v = cu.const_of(ia)
+                        impossible = ('isFOUND' in keep and v != self.op_found) or \
+                            ('notFOUND' in keep and v == self.op_found) or \
+                            ('isFOUND_AT' in keep and v != self.op_found_at) or \
+                            ('notFOUND_AT' in keep and v == self.op_found_at)
+                        if impossible:
+                            continue
+                    elif ia is None or ia['k'] != 'ref' or ia.get('dk') != 'param':
+                        keep -= set(COND_FACTS)
+                    else:
+                        self.instr_params.add(ia['name'])
+                    oa = cu.strip_casts(f, args[io]) if io is not None and io < len(args) else None
+                    if 'offEq' in keep and (oa is None or oa['k'] != 'ref' or oa.get('dk') != 'param'):
+                        keep.discard('offEq')
+                    nf = frozenset(facts | keep)
+                    if _conflict(nf):
+                        continue
+                    if nf not in out:
+                        out.append(nf)
+                return out
+        cl = _flag_clear(f, n, self.flag_vals, track)
         if cl:
             return facts | set('clr' + c for c in cl)
         if k == 'ret':
@@ -112,12 +170,15 @@ def check_function(ctx, fname, mode):
             c = cu.const_of(v) if v is not None else None
             if any(m.startswith(('FAIL_ON_', 'GOTO_EXIT_ON_')) for m in f.macros(n)):
                 return facts        # error return of the repo's FAIL_ON_* idiom
-            if c is None or c == 0:
-                check(facts, n, 'success return')
+            if self.is_param:
+                self.exits.add(frozenset(facts))
+            elif c is None or c == 0:
+                self.check(facts, n, 'success return')
             return facts
         return facts
 
-    def edge(b, term, cond, idx, succ, facts):
+    def edge(self, b, term, cond, idx, succ, facts):
+        f, track = self.f, self.track
         pol = paths.branch_polarity(f, term, idx)
         if pol is None or cond is None:
             return facts
@@ -128,14 +189,18 @@ def check_function(ctx, fname, mode):
         eq = (c['op'] == '==') == pol       # this edge means a == b
         # string == NULL: the loop over strings is over, nothing is denoted
         for x, y in ((a, bb), (bb, a)):
-            if x is not None and x['k'] == 'ref' and x['name'] == TRACK_VAR and \
+            if x is not None and x['k'] == 'ref' and x['name'] == track and \
                     cu.const_of(y) == 0 and eq:
                 return facts - {'pushed', 'clrSM', 'clrFO', 'offEq'}
-        # instruction == OP_X
+        # <instruction parameter> == OP_X
         for x, y in ((a, bb), (bb, a)):
-            if x is not None and x['k'] == 'ref' and x['name'] == 'instruction':
+            if x is not None and x['k'] == 'ref' and x.get('dk') == 'param' and \
+                    (x['name'] in self.instr_params or x['name'] == 'instruction' or
+                     y is not None and y.get('mn') in ('OP_FOUND', 'OP_FOUND_AT')):
                 v = cu.const_of(y)
-                if v == op_found:
+                if v in (self.op_found, self.op_found_at):
+                    self.instr_params.add(x['name'])
+                if v == self.op_found:
                     if eq:
                         if 'notFOUND' in facts:
                             return None
@@ -143,7 +208,7 @@ def check_function(ctx, fname, mode):
                     if 'isFOUND' in facts:
                         return None
                     return facts | {'notFOUND'}
-                if v == op_found_at:
+                if v == self.op_found_at:
                     if eq:
                         if 'notFOUND_AT' in facts or 'isFOUND' in facts:
                             return None
@@ -151,32 +216,77 @@ def check_function(ctx, fname, mode):
                     if 'isFOUND_AT' in facts:
                         return None
                     return facts | {'notFOUND_AT'}
-        # string->fixed_offset == at_offset
+        # string->fixed_offset == <offset parameter>
+
         def is_fixed(n):
             r, p = cu.member_path(f, n)
-            return r is not None and r['k'] == 'ref' and r['name'] == TRACK_VAR and p == ['fixed_offset']
+            return r is not None and r['k'] == 'ref' and r['name'] == track and p == ['fixed_offset']
         for x, y in ((a, bb), (bb, a)):
-            if is_fixed(x) and y is not None and y['k'] == 'ref' and y['name'] == 'at_offset':
+            if is_fixed(x) and y is not None and y['k'] == 'ref' and y.get('dk') == 'param':
+                self.off_params.add(y['name'])
                 if eq:
                     return facts | {'offEq'}
         return facts
 
-    init = set()
-    try:
-        paths.explore(f, init, step, edge)
-    except paths.Budget as e:
-        ctx.require(False, str(e))
-    ctx.require(uses[0] > 0, 'R12.4: no string use site recognised in ' + fname)
+    def run(self):
+        f = self.f
+        try:
+            ins = paths.explore(f, set(), self.step, self.edge)
+        except paths.Budget as e:
+            self.ctx.require(False, str(e))
+        if self.is_param and f.exit is not None:
+            # falling off the end of a void helper
+            for fs in ins.get(f.exit, ()):
+                self.exits.add(frozenset(fs))
+        return self
+
+
+def check_function(ctx, fname, mode):
+    prog = ctx.prog
+    root = ctx.fn(fname, 'libyara/parser.c')
+    flag_vals = {'SM': prog.macro_value('STRING_FLAGS_SINGLE_MATCH'),
+                 'FO': prog.macro_value('STRING_FLAGS_FIXED_OFFSET')}
+    ctx.require(None not in flag_vals.values(), 'shortcut flag macros not evaluable')
+    consts = (flag_vals, prog.macro_value('OP_FOUND'), prog.macro_value('OP_FOUND_AT'),
+              prog.macro_value('OP_PUSH'))
+    fam = cu.family(prog, root)
+    # summaries of helpers that take the string as a parameter, innermost first
+    summaries = {}
+    for h in reversed(fam[1:]):
+        pnames = [p['name'] for p in h.params]
+        for pidx, p in enumerate(h.params):
+            if p.get('type') != STRING_T:
+                continue
+            an = _Analysis(ctx, h, p['name'], mode, consts, summaries).run()
+            keep = ('clrSM', 'clrFO', 'offEq') + COND_FACTS
+            outcomes = set(frozenset(x for x in fs if x in keep) for fs in an.exits)
+            instr = [pnames.index(x) for x in an.instr_params if x in pnames]
+            off = [pnames.index(x) for x in an.off_params if x in pnames]
+            summaries.setdefault(h.name, {})[(h.name, pidx)] = {
+                'outcomes': outcomes, 'instr': instr[0] if instr else None,
+                'off': off[0] if off else None}
+    reports = {}
+    uses = 0
+    for g in fam:
+        gp = [p['name'] for p in g.params]
+        for v in _string_vars(g):
+            if v in gp:
+                continue            # summarised above, judged at the call sites
+            an = _Analysis(ctx, g, v, mode, consts, summaries).run()
+            uses += an.uses
+            for k, r in an.reports.items():
+                reports.setdefault(k, r)
+    ctx.require(uses > 0, 'R12.4: no string use site recognised in ' + fname)
     for flag in ('SINGLE_MATCH', 'FIXED_OFFSET'):
         key = '%s:%s-cleared-or-served' % (fname, flag)
         if flag in reports:
-            n, what, facts = reports[flag]
-            ctx.ob('R12.4', key, False, f.loc(n),
+            g, n, what, facts = reports[flag]
+            ctx.ob('R12.4', key, False, g.loc(n),
                    'a path reaches the %s with a string pushed for use but '
                    'STRING_FLAGS_%s neither cleared nor served by the instruction '
                    '(facts on that path: %s)' % (what, flag, ', '.join(facts)))
         else:
-            ctx.ob('R12.4', key, True, '%s:%s' % (f.file, f.line),
+            ctx.ob('R12.4', key, True, '%s:%s' % (root.file, root.line),
                    'every path that pushes a string clears STRING_FLAGS_%s unless '
                    'the instruction is served by the shortcut' % flag)
 
